@@ -105,7 +105,17 @@ fn t_ast(data: &[u8], ctx: &mut Ctx) -> CheckResult {
                 ctx.class("verdict-accept");
                 run_accepted(&bytes, v, &m, &mut u, ctx)?;
             }
-            (Err(_), Err(_)) => {
+            (Err(why), Err(_)) => {
+                // `instantiate` is validate + compile: the rejection must come from validation itself
+                // ("every accepted module compiles"), not from the compiler tripping over a module
+                // that validate_module let through
+                if wasmrun::validate_only(&bytes, v).is_ok() {
+                    return Err(Violation::new(
+                        "accepts-invalid",
+                        format!("under {:?} validate_module accepts a module (mutations {:?}) that is not valid ({why}); only compilation rejects it", v, names),
+                    )
+                    .with_signature(format!("accepts-invalid-compile-rejects:{}", why.split(':').next().unwrap_or(why))));
+                }
                 any_reject = true;
                 ctx.class("verdict-reject");
             }
